@@ -32,7 +32,7 @@ def shards(tier):
 
 
 def timeout(tier):
-    return 900 if tier == "quick" else 7200
+    return 1800 if tier == "quick" else 14400
 
 
 def floors(tier):
@@ -139,7 +139,7 @@ def atheris_campaign(ctx, which, runs, T=None):
            "-verbosity=0", "-print_final_stats=0", "-timeout=120", "-artifact_prefix=" + prefix]
     e = env.child_env(hashseed=ctx.shard % 5, extra={"FZ_TARGET": which, "FZ_OUT": out})
     try:
-        p = subprocess.run(cmd, env=e, capture_output=True, text=True, timeout=3000, cwd=env.ROOT)
+        p = subprocess.run(cmd, env=e, capture_output=True, text=True, timeout=6000, cwd=env.ROOT)
     except subprocess.TimeoutExpired:
         ctx.inconclusive_reason("atheris campaign timed out")
         return
